@@ -469,6 +469,33 @@ fn check_placement(bytes: &[u8], q: &Queries, label: &str, st: &mut Stats) -> Ch
     Ok(())
 }
 
+/// "For every byte buffer": also one that does not start at a multiple of 8 (a slice into a larger read, a packed
+/// container). The same bytes are offered at every address k mod 8, k = 1..7; whatever the verdict (watto needs
+/// 4-byte alignment for the header, 8 for nothing), parse must return and, if it accepts, the queries must too.
+pub fn check_addresses(images: &[(&str, &[u8])], q: &Queries, st: &mut Stats) -> Check {
+    for (what, bytes) in images {
+        let mut big = AlignedBuf::new(&vec![0xa5u8; bytes.len() + 16]);
+        for k in 1..8usize {
+            big.bytes_mut()[k..k + bytes.len()].copy_from_slice(bytes);
+            let slice = &big.bytes()[k..k + bytes.len()];
+            st.evaluations += 1;
+            let accepted = guarded(|| match proguard::ProguardCache::parse(slice) {
+                Ok(c) => {
+                    let _ = answers_hash(&cur::C(c), q);
+                    true
+                }
+                Err(_) => false,
+            })
+            .map_err(|p| Fail::new("parse-panic", format!("{what} ({} bytes) offered at an address = {k} mod 8: {p}", bytes.len())).with(json!({"address_mod_8": k, "what": what})))?;
+            if accepted {
+                st.class("buffer at an address that is not a multiple of 8 accepted and queried");
+            }
+        }
+    }
+    st.class("every image offered at addresses 1..7 mod 8");
+    Ok(())
+}
+
 pub fn check_buffer(buf: &AlignedBuf, q: &Queries, label: &str, case_hash: u64, st: &mut Stats) -> Check {
     let parsed = guarded(|| proguard::ProguardCache::parse(buf.bytes())).map_err(|p| Fail::new("parse-panic", format!("parse panicked on a corrupted buffer ({label}): {p}")))?;
     match parsed {
@@ -511,6 +538,11 @@ pub fn check_case(c: &CorruptCase, st: &mut Stats) -> Check {
     }
     if st.want_sample() && h.num_members >= 2 {
         st.sample(|| json!({"mapping": crate::engine::show_bytes(&bytes), "corruptions": c.corr, "cache_len": valid.len()}));
+    }
+    {
+        let v = valid.bytes();
+        let zeros = [0u8; 48];
+        check_addresses(&[("valid cache", v), ("corrupted cache", buf.bytes()), ("header-only prefix", &v[..v.len().min(24)]), ("40-byte prefix", &v[..v.len().min(40)]), ("23-byte prefix", &v[..v.len().min(23)]), ("zero bytes", &zeros[..]), ("empty buffer", &[][..])], &q, st)?;
     }
     // a string that claims to end just behind the end of the buffer: the file is cut right after one of its strings
     // (which thereby becomes the last one) and that string's length prefix is raised by 1 and by 2
